@@ -567,6 +567,38 @@ pub mod checks {
         rep.samples.push(json!({"lhs": [1], "rhs": [1.0], "json_eq": true}));
         rep
     }
+    /// extension functions (in, nin, none_of, any_of, subset_of, unknown names) with present, missing and surplus arguments:
+    /// evaluation must not panic and must return Ok (C08).  What they compute is C14 (not applicable here).
+    pub fn group_custom(_tier: &str, _seed: u64, _only: Option<(usize, usize)>) -> Report {
+        let mut rep = Report::new("custom");
+        let docs = [json!({"elems": [1, [1], "a", null, {"a": 1}], "list": [1, "a"]}), json!({"elems": [1, [1, 2], []]}), json!({"elems": [{"a": [1]}, {"b": 1}], "list": 3}),
+                    json!([1, 2]), json!({"list": []}), json!(null)];
+        let rel = |segs: Vec<Segment>| FnArg::Test(Box::new(Test::RelQuery(segs)));
+        let abs = |n: &str| FnArg::Test(Box::new(Test::AbsQuery(JpQuery::new(vec![Segment::Selector(Selector::Name(n.to_string()))]))));
+        let nm = |n: &str| Segment::Selector(Selector::Name(n.to_string()));
+        let arglists: Vec<Vec<FnArg>> = vec![
+            vec![rel(vec![]), abs("list")], vec![rel(vec![nm("a")]), abs("list")], vec![rel(vec![]), abs("missing")], vec![rel(vec![nm("zz")]), abs("missing")],
+            vec![rel(vec![])], vec![], vec![rel(vec![]), abs("list"), abs("list")], vec![FnArg::Literal(Literal::Int(1)), abs("list")],
+            vec![rel(vec![Segment::Selector(Selector::Wildcard)]), abs("list")],
+        ];
+        for name in ["in", "nin", "none_of", "any_of", "subset_of", "foo"] {
+            for (ai, args) in arglists.iter().enumerate() {
+                let f = Filter::Atom(FilterAtom::Test { expr: Box::new(Test::Function(Box::new(TestFunction::Custom(name.to_string(), args.clone())))), not: false });
+                for q in [JpQuery::new(vec![nm("elems"), Segment::Selector(Selector::Filter(f.clone()))]), JpQuery::new(vec![Segment::Selector(Selector::Filter(f.clone()))])] {
+                    for (di, d) in docs.iter().enumerate() {
+                        rep.evaluations += 1; rep.nontrivial += 1;
+                        match catch_unwind(AssertUnwindSafe(|| js_path_process(&q, d).is_ok())) {
+                            Err(_) => rep.fail("custom.no_panic", &[], json!({"function": name, "query": show(&q), "doc": d, "qi": ai, "di": di})),
+                            Ok(false) => rep.fail("custom.ok", &[], json!({"function": name, "query": show(&q), "doc": d, "qi": ai, "di": di})),
+                            Ok(true) => {}
+                        }
+                    }
+                }
+            }
+        }
+        rep.samples.push(json!({"query": "$.elems[?in(@, $.list)]", "doc": docs[1]}));
+        rep
+    }
     /// index / slice arithmetic on the real functions (counterexample search and replay for C11; mirror sanity)
     pub fn group_arith(tier: &str, _seed: u64, _only: Option<(usize, usize)>) -> Report {
         let mut rep = Report::new("arith");
